@@ -14,6 +14,7 @@ import ast
 import itertools
 import json
 import re
+import sys
 from pathlib import Path
 
 from .. import core, translate as T
@@ -67,7 +68,7 @@ def translate(repo: Path) -> dict:
     # ---- Python: objects.py
     otree = T.module_ast(repo / "dulwich" / "objects.py")
     pt = T.find_def(otree, "parse_tree")
-    idx_calls, base, lead = [], None, None
+    idx_calls, base, lead, mode_re, mode_max = [], None, None, None, None
     for n in sorted((n for n in ast.walk(pt) if isinstance(n, ast.Call)), key=lambda n: (n.lineno, n.col_offset)):
         if isinstance(n.func, ast.Attribute) and n.func.attr == "index" and n.args and _bytes_const(n.args[0]) is not None:
             idx_calls.append(_bytes_const(n.args[0]))
@@ -75,10 +76,28 @@ def translate(repo: Path) -> dict:
             lead = _bytes_const(n.args[0])
         if isinstance(n.func, ast.Name) and n.func.id == "int" and len(n.args) == 2 and isinstance(n.args[1], ast.Constant):
             base = n.args[1].value
+        if isinstance(n.func, ast.Attribute) and n.func.attr == "fullmatch" and isinstance(n.func.value, ast.Name):
+            mode_re = n.func.value.id
+    for n in ast.walk(pt):
+        if isinstance(n, ast.Compare) and isinstance(n.left, ast.Name) and n.left.id == "mode" and isinstance(n.ops[0], ast.Gt):
+            mode_max = T.eval_literal(n.comparators[0])
     if len(idx_calls) != 2 or any(len(b) != 1 for b in idx_calls) or lead is None or len(lead) != 1 or not isinstance(base, int):
         raise T.TranslateError(f"parse_tree: index calls {idx_calls}, startswith {lead}, int base {base}")
     if not 2 <= base <= 10:
         raise T.TranslateError(f"parse_tree: int base {base} outside what the model of int() covers")
+    if any(isinstance(n, ast.Try) for n in ast.walk(pt)):
+        raise T.TranslateError("parse_tree: unexpected try block (the model has int() unguarded after the pattern check)")
+    if mode_re is None or mode_max is None:
+        raise T.TranslateError(f"parse_tree: mode pattern check ({mode_re}) / `mode > N` bound ({mode_max}) not found")
+    pat = None
+    for st in otree.body:
+        if isinstance(st, ast.Assign) and any(isinstance(t, ast.Name) and t.id == mode_re for t in st.targets) \
+                and isinstance(st.value, ast.Call) and st.value.args and _bytes_const(st.value.args[0]) is not None:
+            pat = _bytes_const(st.value.args[0])
+    m = re.fullmatch(rb"\[(.)-(.)\]\+", pat or b"")
+    if not m:
+        raise T.TranslateError(f"parse_tree: mode pattern {pat!r} is not of the form [a-b]+")
+    re_lo, re_hi = m.group(1)[0], m.group(2)[0]
     s2h = T.find_def(otree, "sha_to_hex")
     hexlens = None
     for n in ast.walk(s2h):
@@ -98,6 +117,13 @@ def translate(repo: Path) -> dict:
     sti = T.find_def(otree, "sorted_tree_items")
     if not any(isinstance(n, ast.Call) and isinstance(n.func, ast.Name) and n.func.id == "sorted" for n in ast.walk(sti)):
         raise T.TranslateError("sorted_tree_items: sorted(...) call not found")
+    sort_max = None
+    for n in ast.walk(sti):
+        if isinstance(n, ast.Compare) and len(n.ops) == 2 and all(isinstance(o, ast.LtE) for o in n.ops) \
+                and isinstance(n.comparators[0], ast.Name) and n.comparators[0].id == "mode" and T.eval_literal(n.left) == 0:
+            sort_max = T.eval_literal(n.comparators[1])
+    if sort_max is None:
+        raise T.TranslateError("sorted_tree_items: `0 <= mode <= N` range check not found")
     # CPython's mode_t width behind stat.S_ISDIR
     mode_t_bits = None
     for k in (16, 32, 64):
@@ -118,10 +144,29 @@ def translate(repo: Path) -> dict:
             nl = _bytes_const(n.comparators[0])
     if nl is None or len(nl) != 1:
         raise T.TranslateError("_count_blocks: `cb == b'\\n'` not found")
-    te = T.find_def(otree, "TreeEntry.in_path")
-    if not any(isinstance(n, ast.Attribute) and n.attr == "join" and isinstance(n.value, ast.Name) and n.value.id == "posixpath"
-               for n in ast.walk(te)):
-        raise T.TranslateError("TreeEntry.in_path no longer uses posixpath.join")
+    te = T.find_def(dtree, "_tree_entries")
+    if any(isinstance(n, ast.Attribute) and n.attr in ("in_path", "join") for n in ast.walk(te)):
+        raise T.TranslateError("_tree_entries uses in_path()/posixpath.join again (the model has plain concatenation)")
+    py_sep = None
+    for n in ast.walk(te):
+        # path + b"/" + entry.path if path else entry.path
+        if isinstance(n, ast.IfExp) and isinstance(n.test, ast.Name) and n.test.id == "path" and isinstance(n.body, ast.BinOp) \
+                and isinstance(n.body.left, ast.BinOp) and _bytes_const(n.body.left.right) is not None:
+            py_sep = _bytes_const(n.body.left.right)
+    if py_sep is None or len(py_sep) != 1:
+        raise T.TranslateError("_tree_entries: `path + b\"/\" + entry.path if path else entry.path` not found")
+    # bisect_find_sha (Python): argument checks
+    ptree = T.module_ast(repo / "dulwich" / "pack.py")
+    pb = T.find_def(ptree, "bisect_find_sha")
+    checks = []
+    for n in pb.body:
+        if isinstance(n, ast.If) and isinstance(n.test, ast.Compare) and isinstance(n.body[0], ast.Raise):
+            exc = n.body[0].exc
+            checks.append((ast.unparse(n.test), exc.func.id if isinstance(exc, ast.Call) else ast.unparse(exc)))
+    if checks != [("start < 0", "ValueError"), ("start > end", "ValueError"), ("end > sys.maxsize", "OverflowError")]:
+        raise T.TranslateError(f"bisect_find_sha: argument checks {checks}")
+    if any(isinstance(n, ast.Assert) for n in ast.walk(pb)):
+        raise T.TranslateError("bisect_find_sha: assert is back")
     # ---- Rust: objects
     osrc = (repo / "crates" / "objects" / "src" / "lib.rs").read_text()
     rpt = _rust_fn(osrc, "parse_tree")
@@ -130,19 +175,34 @@ def translate(repo: Path) -> dict:
     rlead = _one(r"strict\s*&&\s*text\[0\]\s*==\s*(b'[^']+')", rpt, "Rust parse_tree strict check")
     if len(terms) != 2 or radix.group(1) != "u":
         raise T.TranslateError(f"Rust parse_tree: memchr terminators {terms}, radix type {radix.group(0)}")
+    rplus = _one(r"if\s+text\[0\]\s*==\s*(b'[^']+')\s*\{\s*return Err", rpt, "Rust parse_tree leading-sign rejection")
+    if rpt.index(rplus.group(0)) > rpt.index("::from_str_radix("):
+        raise T.TranslateError("Rust parse_tree: the leading-sign check must precede from_str_radix")
     cws = _rust_fn(osrc, "cmp_with_suffix")
-    sfx = re.findall(r"==\s*S_IFDIR\s*\{\s*(b'[^']+'|\d+)\s*\}\s*else\s*\{\s*(b'[^']+'|\d+)\s*\}", cws)
-    if len(sfx) != 2 or sfx[0] != sfx[1]:
-        raise T.TranslateError(f"Rust cmp_with_suffix: suffix/sentinel pattern {sfx}")
+    sfx = _one(r"==\s*S_IFDIR\s*\{\s*b\"([^\"]*)\"\s*\}\s*else\s*\{\s*b\"([^\"]*)\"\s*\}", cws, "Rust cmp_with_suffix suffix closure")
+    if len(sfx.group(1)) != 1 or sfx.group(2) != "":
+        raise T.TranslateError(f"Rust cmp_with_suffix: suffixes {sfx.groups()}")
+    if not re.search(r"a\.1\[len\.\.\]\s*\.iter\(\)\s*\.chain\(suffix\(a\.0\)\)\s*\.cmp\(b\.1\[len\.\.\]\.iter\(\)\.chain\(suffix\(b\.0\)\)\)", cws):
+        raise T.TranslateError("Rust cmp_with_suffix: chained comparison of the rests not found")
     # ---- Rust: pack
     psrc = (repo / "crates" / "pack" / "src" / "lib.rs").read_text()
     bis = _rust_fn(psrc, "bisect_find_sha")
-    ity = re.findall(r"\b(?:start|end):\s*i(\d+)", bis)
-    if len(ity) != 2 or ity[0] != ity[1]:
+    ity = re.findall(r"\b(?:start|end):\s*(i\w+)", bis)
+    if ity != ["isize", "isize"]:
         raise T.TranslateError(f"Rust bisect_find_sha: bound types {ity}")
+    import struct
+    isize_bits = struct.calcsize("P") * 8
+    if sys.maxsize != 2 ** (isize_bits - 1) - 1:
+        raise T.TranslateError("sys.maxsize is not isize::MAX on this platform")
+    rchecks = re.findall(r"if\s+(start\s*[<>]\s*\w+)\s*\{\s*return Err\(Py(\w+)::new_err", bis)
+    if [(re.sub(r"\s+", " ", a), b) for a, b in rchecks] != [("start < 0", "ValueError"), ("start > end", "ValueError")]:
+        raise T.TranslateError(f"Rust bisect_find_sha: argument checks {rchecks}")
+    if not re.search(r"i\.checked_add\(1\)\s*\{\s*Some\(next\)\s*=>\s*start\s*=\s*next,\s*None\s*=>\s*break", bis) \
+            or not re.search(r"end\s*=\s*i\s*-\s*1;", bis):
+        raise T.TranslateError("Rust bisect_find_sha: bound updates changed")
     shl = _one(r"sha_len\s*!=\s*(\d+)\s*&&\s*sha_len\s*!=\s*(\d+)", bis, "Rust bisect sha length check")
     isl = _one(r"len\s*==\s*(\d+)\s*\|\|\s*len\s*==\s*(\d+)", _rust_fn(psrc, "py_is_sha"), "Rust py_is_sha")
-    if not re.search(r"\(start\s*\+\s*end\)\s*/\s*2", bis):
+    if not re.search(r"let i = start\s*\+\s*\(end\s*-\s*start\)\s*/\s*2;", bis):
         raise T.TranslateError("Rust bisect_find_sha: midpoint expression changed")
     cdi = _rust_fn(psrc, "create_delta_internal")
     chunk = set(re.findall(r"remaining\.min\((\d+)\)", cdi))
@@ -170,6 +230,15 @@ def pyModeTerm : UInt8 := {idx_calls[0][0]}
 def pyNameTerm : UInt8 := {idx_calls[1][0]}
 def pyStrictLead : UInt8 := {lead[0]}
 def pyModeBase : Nat := {base}
+/-- `_TREE_MODE_RE = re.compile(rb"[a-b]+")`: a, b; `if mode > N` -/
+def pyModeReLo : Nat := {re_lo}
+def pyModeReHi : Nat := {re_hi}
+def pyModeMax : Int := {mode_max}
+/-- `sorted_tree_items`: `if not 0 <= mode <= N: raise TypeError` -/
+def pySortModeMax : Int := {sort_max}
+/-- `_tree_entries`: `path + b"/" + entry.path if path else entry.path`; `bisect_find_sha`: `sys.maxsize` -/
+def pyPathSep : UInt8 := {py_sep[0]}
+def pyMaxsize : Int := {sys.maxsize}
 /-- `sha_to_hex`: accepted lengths of the hex string -/
 def pyHexLens : List Nat := {sorted(hexlens)}
 /-- `key_entry`: `name += b"/"` when `stat.S_ISDIR(mode)`; CPython's `S_IFMT`, `S_IFDIR`, width of `mode_t` -/
@@ -183,14 +252,15 @@ def rsNameTerm : UInt8 := {_rust_byte(terms[1])}
 def rsStrictLead : UInt8 := {_rust_byte(rlead.group(1))}
 def rsModeRadix : Nat := {int(radix.group(3))}
 def rsModeBits : Nat := {int(radix.group(2))}
-/-- crates/objects: `S_IFMT`, `S_IFDIR`, the suffix and the sentinel of `cmp_with_suffix`, mode type of `sorted_tree_items` -/
+/-- Rust parse_tree: `if text[0] == b'+' {{ return Err(..) }}` before the parse -/
+def rsRejectLead : UInt8 := {_rust_byte(rplus.group(1))}
+/-- crates/objects: `S_IFMT`, `S_IFDIR`, the directory suffix of `cmp_with_suffix` (the other suffix is empty), mode type of `sorted_tree_items` -/
 def rsObjSIfmt : Nat := {_rust_const(osrc, "S_IFMT")}
 def rsObjSIfdir : Nat := {_rust_const(osrc, "S_IFDIR")}
-def rsDirSuffix : UInt8 := {_rust_byte(sfx[0][0])}
-def rsNoSuffix : UInt8 := {_rust_byte(sfx[0][1])}
+def rsDirSuffix : UInt8 := {ord(sfx.group(1))}
 def rsSortModeBits : Nat := {int(sbits.group(1))}
-/-- crates/pack bisect_find_sha: `start: iN`, `end: iN`; accepted probe lengths; `py_is_sha` lengths -/
-def rsBisectBits : Nat := {int(ity[0])}
+/-- crates/pack bisect_find_sha: `start: isize`, `end: isize` (width on this platform); accepted probe lengths; `py_is_sha` lengths -/
+def rsBisectBits : Nat := {isize_bits}
 def rsBisectShaLens : List Nat := {sorted(int(x) for x in shl.groups())}
 def rsIsShaLens : List Nat := {sorted(int(x) for x in isl.groups())}
 /-- crates/pack create_delta_internal: `remaining.min(N)` literal chunk size -/
